@@ -275,3 +275,53 @@ def run(ctx):
         for bb, op in bad:
             r8.fail('%s/option-order/%s' % (b.nid, op), mirq.site(b, bb), 'two optional bounds are combined with the derived ordering of Option, in which None is the smallest value; for a bound None means unbounded (the largest): an infinite end erases a finite one')
     r8.need(3)
+
+    index_validated_on_success(ctx)
+
+
+def index_validated_on_success(ctx):
+    """R15.9: a native that takes a program-supplied index validates it with value_to_idx (normalises a negative index, yields the
+    out-of-range error).  Every *success* return of such a native -- `Ok(v)` where v is not an error value built on the spot and not
+    a propagated failure -- lies behind the validation: no path from the entry reaches it around every value_to_idx call."""
+    mir = ctx.mir
+    r9 = ctx.rule('R15.9', 'natives with an index argument return a value only on paths that have validated the index')
+    from .lib.facts import callee_name
+    for b in mir.bodies:
+        if b.file not in ('src/builtin/sequence.rs', 'src/builtin/stack.rs') or b.kind != 'closure':
+            continue
+        v = [bb for bb, t in b.calls() if strip_generics(callee_name(t) or '').endswith('::value_to_idx')]
+        if not v:
+            continue
+        free, todo = set(), [0]
+        while todo:
+            x = todo.pop()
+            if x in free or x in v or b.is_cleanup(x):
+                continue
+            free.add(x)
+            todo += b.succ(x)
+        fn = strip_generics(mir.enclosing_fn(b))
+        n_success = 0
+        for i, j, s in b.stmts():
+            if not (s['k'] == 'assign' and not s['place']['p'] and s['place']['l'] == 0 and s['rv']['k'] == 'agg' and s['rv'].get('v') == 'Ok' and s['rv']['ops']):
+                continue
+            # an error value built on the spot: Ok(TailedEvalResult::Value(Err(..)))
+            l = op_local(s['rv']['ops'][0])
+            err = False
+            for _ in range(3):
+                ds = b.defs().get(l, []) if l is not None else []
+                if len(ds) != 1 or ds[0][0] != 'stmt' or ds[0][3]['rv']['k'] != 'agg' or not ds[0][3]['rv'].get('ops'):
+                    break
+                if ds[0][3]['rv'].get('v') == 'Err':
+                    err = True
+                    break
+                l = op_local(ds[0][3]['rv']['ops'][0])
+            if err:
+                continue
+            n_success += 1
+            ok = i not in free
+            r9.inst({'native': fn, 'success_return': mirq.site(b, i, j), 'behind_value_to_idx': ok}, ok=ok, kind=(b.nid, i))
+            if not ok:
+                r9.fail('%s/success-without-index-validation' % fn.split('::')[-1], mirq.site(b, i, j), 'this native returns a value on a path that never validated the index argument: an out-of-range index is accepted there (pop([7], 5) returns [] instead of the out-of-range error)')
+        if not n_success:
+            r9.fail('%s/no-success-return' % fn.split('::')[-1], b.file, 'no success return recognised in a native that validates an index (fail closed)')
+    r9.need(4)
